@@ -44,11 +44,7 @@ class ExtremeDraw:
         self.ties = ties
         self.extreme = extreme
         self.on_fire = on_fire or (lambda kind, n: None)
-        lo = list(range(0, N_OFFSETS))
-        hi = list(range(1, N_OFFSETS + 1))
-        rng.shuffle(lo)
-        rng.shuffle(hi)
-        self._lo, self._hi = lo, hi
+        self._used_lo, self._used_hi = set(), set()
         self.fired = 0
         self._saved = None
         self._depth = 0
@@ -107,6 +103,18 @@ class ExtremeDraw:
         return False
 
     # ---------------------------------------------------------------------------------------------
+    def _room(self) -> int:
+        return (N_OFFSETS * 3) // 4 - max(len(self._used_lo), len(self._used_hi))
+
+    def _offset(self, side: str) -> int:
+        """An offset (in grid steps from the end) never used before in this context for this end."""
+        used, base = (self._used_lo, 0) if side == "low" else (self._used_hi, 1)
+        while True:
+            k = base + self.rng.randrange(N_OFFSETS)
+            if k not in used:
+                used.add(k)
+                return k
+
     def _fire(self, kind, n):
         self.fired += n
         self.on_fire(kind, n)
@@ -142,15 +150,14 @@ class ExtremeDraw:
         n = flat.numel()
         if self.extreme and hi > lo:
             side = r.choice(["low", "high", "mixed"])
-            cap = min(len(self._lo), len(self._hi))
-            idx = self._subset(n, cap)
+            idx = self._subset(n, max(0, self._room()))
             us = []
             for _ in idx:
                 s = side if side != "mixed" else r.choice(["low", "high"])
                 if s == "low":
-                    us.append(self._lo.pop() * GRID)
+                    us.append(self._offset("low") * GRID)
                 else:
-                    us.append(1.0 - self._hi.pop() * GRID)
+                    us.append(1.0 - self._offset("high") * GRID)
             if idx:
                 u = torch.tensor(us, dtype=out.dtype)
                 vals = u if (lo == 0.0 and hi == 1.0) else u * (hi - lo) + lo
